@@ -135,6 +135,24 @@ def _run_case(spec):
         exd['bweyl_n_down3'] = ex['bweyl_n_down3']
         exd['eweyl_u_down4'] = ex['eweyl_n_down4']
         exd['bweyl_u_down4'] = ex['bweyl_n_down4']
+        # --- a fluid moving through the slices: the u-frame parts are the same
+        # contractions of the exact Weyl tensor with u = W (n + v)
+        _, relC = c04.evaluate(spec, g, [])
+        v = np.array([0.30 * np.sin(np.pi * x) * np.cos(np.pi * y),
+                      0.20 * np.cos(np.pi * z) + 0.1,
+                      -0.25 * np.sin(np.pi * (x + y))])
+        v = v / (1.0 + np.sqrt(np.abs(ex['gammadown3']).max()))
+        Wl = 1 / np.sqrt(1 - np.einsum('i...,j...,ij...->...', v, v, ex['gammadown3']))
+        relC.data.update(velx=v[0].copy(), vely=v[1].copy(), velz=v[2].copy(), w_lorentz=Wl.copy())
+        tk = engine.eval_keys(relC, ['eweyl_u_down4', 'bweyl_u_down4'])
+        code['eweyl_u_down4#tilted'] = tk['eweyl_u_down4']
+        code['bweyl_u_down4#tilted'] = tk['bweyl_u_down4']
+        uu = Wl * (ex['nup4'] + np.concatenate([np.zeros((1,) + x.shape), v]))
+        LCd = S.LC4.reshape(S.LC4.shape + (1, 1, 1)) * np.sqrt(-ex['gdet'])
+        LCuudd = np.einsum('ac...,bd...,abef...->cdef...', ex['gup4'], ex['gup4'], LCd)
+        exd['eweyl_u_down4#tilted'] = np.einsum('b...,d...,abcd...->ac...', uu, uu, W)
+        exd['bweyl_u_down4#tilted'] = 0.5 * np.einsum('b...,f...,abcd...,cdef...->ae...',
+                                                    uu, uu, W, LCuudd)
         # --- tetrads and scalars, both tetrad choices
         for tname, tet in (("qK", "quasi-Kinnersley"), ("fluid", "fluid")):
             _, relT = c04.evaluate(spec, g, [], rel_kw=dict(tetrad=tet))
@@ -218,7 +236,7 @@ def _run_case(spec):
                                    * np.sqrt(ex['gammadet']))
         exd['_ex'] = ex
         vals.append((exd, code))
-        del relA, relB
+        del relA, relB, relC
     ex = vals[1][0]['_ex']
     hint = float(np.abs(ex['st_Gamma_udd4']).max() ** 2
                  + np.abs(ex['s_Riemann_down3']).max()
